@@ -60,6 +60,11 @@ func GenReg(seed, run uint64, tier, mode string) *plan.Plan {
 	switch r.Intn(8) {
 	case 0:
 		maxPrec = 60
+		if r.Chance(1, 3) {
+			// occasionally very high precision: internal tables and constants
+			// have precision-dependent paths (constWithPrecision, table misses)
+			maxPrec = 200
+		}
 	case 1, 2:
 		maxPrec = 34
 	case 3:
